@@ -33,12 +33,25 @@ func (iterator *Iterator[T]) Next() bool {
 		iterator.element = nil
 		return false
 	}
-	if iterator.index != 0 {
-		iterator.element = iterator.element.next
-	} else {
+	if iterator.index == 0 {
 		iterator.element = iterator.list.first
+	} else if iterator.element != nil {
+		iterator.element = iterator.element.next
 	}
+	iterator.reanchor()
 	return true
+}
+
+// reanchor finds the element at the iterator's position again when the link followed by Next() or Prev() led nowhere,
+// which happens only if the list was modified since the iterator last moved.
+func (iterator *Iterator[T]) reanchor() {
+	if iterator.element != nil {
+		return
+	}
+	iterator.element = iterator.list.first
+	for i := 0; i < iterator.index; i++ {
+		iterator.element = iterator.element.next
+	}
 }
 
 // Prev moves the iterator to the previous element and returns true if there was a previous element in the container.
@@ -54,9 +67,10 @@ func (iterator *Iterator[T]) Prev() bool {
 	}
 	if iterator.index == iterator.list.size-1 {
 		iterator.element = iterator.list.last
-	} else {
+	} else if iterator.element != nil {
 		iterator.element = iterator.element.prev
 	}
+	iterator.reanchor()
 	return iterator.list.withinRange(iterator.index)
 }
 
